@@ -331,14 +331,18 @@ func limitText(q Node) string {
 		return ""
 	}
 	if lim >= 2000000000 {
-		// the specification's Huge: the largest LIMIT the parser accepts
+		// the specification's Huge (the largest int64) and Huge + 1 (the largest uint64, MySQL's idiom for "all the rest")
+		text := "9223372036854775807"
+		if lim > 2000000000 {
+			text = "18446744073709551615"
+		}
 		if off < 0 {
-			return " LIMIT 9223372036854775807"
+			return " LIMIT " + text
 		}
 		if s, _ := q["limstyle"].(string); s == "comma" {
-			return fmt.Sprintf(" LIMIT %d, 9223372036854775807", off)
+			return fmt.Sprintf(" LIMIT %d, %s", off, text)
 		}
-		return fmt.Sprintf(" LIMIT 9223372036854775807 OFFSET %d", off)
+		return fmt.Sprintf(" LIMIT %s OFFSET %d", text, off)
 	}
 	if off < 0 {
 		return fmt.Sprintf(" LIMIT %d", lim)
@@ -364,9 +368,26 @@ func (st Style) Query(q Node) string {
 			if n["k"] == "select" && len(seq(n["with"])) > 0 {
 				return "(" + st.Query(n) + ")"
 			}
+			// ... and so has a nested union with a window or an order of its own
+			if n["k"] == "union" && (num(n["limit"]) >= 0 || num(n["offset"]) >= 0 || len(seq(n["order"])) > 0) {
+				return "(" + st.Query(n) + ")"
+			}
 			return st.Query(n)
 		}
-		return side(q["l"].(Node)) + kw + side(q["r"].(Node)) + limitText(q)
+		order := ""
+		if ord := seq(q["order"]); len(ord) > 0 {
+			ks := []string{}
+			for _, o := range ord {
+				o := o.(Node)
+				dir := " ASC"
+				if !o["asc"].(bool) {
+					dir = " DESC"
+				}
+				ks = append(ks, st.path(strs(o["key"]))+dir)
+			}
+			order = " ORDER BY " + strings.Join(ks, ", ")
+		}
+		return side(q["l"].(Node)) + kw + side(q["r"].(Node)) + order + limitText(q)
 	}
 	var b strings.Builder
 	if with := seq(q["with"]); len(with) > 0 {
@@ -407,7 +428,12 @@ func (st Style) Query(q Node) string {
 	}
 	if g := strs(q["group"]); len(g) > 0 {
 		names := []string{}
+		gqual, _ := q["gqual"].(string)
 		for _, c := range g {
+			if gqual != "" {
+				names = append(names, st.ident(gqual)+"."+st.ident(c))
+				continue
+			}
 			names = append(names, st.ident(c))
 		}
 		b.WriteString(" GROUP BY " + strings.Join(names, ", "))
